@@ -189,6 +189,9 @@ type LuaError struct {
 type Unspecified struct{ Reason string }
 
 type coClose struct{}
+
+// coCloseErr: the coroutine is being closed and a __close handler raised err.
+type coCloseErr struct{ err *LuaError }
 type coAbort struct{}
 
 func typeName(v Value) string {
